@@ -411,6 +411,17 @@ def _post(entry, out, obj):
         tv = np.asarray(G.tits_vinberg_rep({(0, 1): -2.5})["a"], float)
         again = np.stack([np.asarray(G.geometric_representation()[g], float) for g in "abc"])
         kept = close(np.asarray(G.coxeter_matrix, float), labels_before, 1e-12) and close(np.asarray(np.asarray(obj, dtype=float)), labels_before, 1e-12)
+        # the same group from a diagram whose labels carry the packaging's number type (Python / NumPy scalar, 0-d array)
+        el = np.asarray(obj).reshape(-1)[0]
+        for conv in ((lambda x: type(el.item())(x)), (lambda x: np.asarray(obj).dtype.type(x)), (lambda x: np.array(x, dtype=np.asarray(obj).dtype))):
+            lb = labels_before
+            Gd = coxeter.CoxeterGroup(diagram=[("a", "b", conv(lb[0][1])), ("b", "c", conv(lb[1][2])), ("a", "c", conv(lb[0][2]))])
+            before_d = np.array(np.asarray(Gd.coxeter_matrix, dtype=float))
+            cmd_ = np.asarray(Gd.cartan_matrix({(0, 1): -2.5}), float)
+            tvd_ = np.asarray(Gd.tits_vinberg_rep({(0, 1): -2.5})["a"], float)
+            gd_ = np.stack([np.asarray(Gd.geometric_representation()[g], float) for g in "abc"])
+            kept = kept and close(np.asarray(Gd.coxeter_matrix, float), before_d, 1e-12) and close(cmd_, cm, 1e-9) and close(tvd_, tv, 1e-9) \
+                and close(gd_, again, 1e-9)
         hr = G.hyperbolic_rep()
         J = np.diag([-1.0, 1.0, 1.0])
         # HyperbolicRepresentation stores column matrices; form preserved either way for reflections
@@ -450,6 +461,8 @@ def gen_packaging(rng, n):
                 v = 1                      # an interior angle of a regular pentagon (< 3 pi / 5)
         else:
             v = rng.choice([0.5, 0.75, 1.25, 2.5, -0.375, 0.625]) if e not in ("regular_polygon", "regular_polygon_angle") else rng.choice([0.5, 0.75, 1.25])
+        if e == "coxeter_rep":
+            v, integral = 2, True        # the Coxeter matrix with an infinite-order label, in every packaging (int and float)
         yield {"entry": e, "v": v, "integral": integral}
 
 
